@@ -13,7 +13,7 @@ import (
 // ---------- alphabet ----------
 
 // upper/lower case, the LIKE metacharacters, the usual delimiter, 2- and 4-byte UTF-8, digits
-var c06Alphabet = []string{"a", "A", "b", "B", "%", "_", "/", "é", "😀", "0", "1", "a", "b", "/"}
+var c06Alphabet = []string{"a", "A", "b", "B", "%", "_", "/", "é", "😀", "0", "1", "a", "b", "/", "*", "?", "[", "]", "a"}
 
 func c06Runes(s string) []string {
 	var out []string
